@@ -17,5 +17,6 @@ PROPS = {
         level='proof',
         technique='contract-based deductive verification (Verus) of the verbatim-extracted BufferQueue / SmallCharSet code',
     ),
+    'C15': dict(verus=['u_small', 'u_bq', 'u_xtok'], level='proof', technique='contract-based deductive verification (Verus) of the verbatim-extracted XmlTokenizer input primitives and state machine against the normalised pending stream (stream-level contracts, fast-path loop invariant, call-site set preconditions)'),
     'C18': dict(verus=['u_trace'], level='proof', technique='contract-based deductive verification (Verus): trace_handles against a handle set generated from the struct definition'),
 }
